@@ -127,7 +127,7 @@ fn conv_case(rt: &tokio::runtime::Runtime, dir: &Path, case: &Value, n: usize) -
 		}
 	}
 	ev["streams"] = json!(streams);
-	ev["expect"] = json!(looked.iter().filter(|(_, r)| **r != RES_NONE).map(|((z, y, x), r)| json!([z, x, y, r])).collect::<Vec<_>>());
+	ev["expect"] = json!(looked.iter().filter(|(_, r)| **r > 0 || **r == RES_UNKNOWN).map(|((z, y, x), r)| json!([z, x, y, r])).collect::<Vec<_>>());
 	// every 8th case: real conversion into a file, decoded independently
 	ev["file"] = json!({"skip":1,"ok":0,"tiles":[]});
 	if n % 8 == 0 && !cov.is_empty() {
